@@ -2,4 +2,4 @@
 CONSTANTS MaxAdds = 2  MVs = {0}  Extra = FALSE  Mut = "ser-one-bound"
 SPECIFICATION Spec
 INVARIANTS TypeOK Inv_C12_Refines Inv_C12_MinValues Inv_C12_Overlap Inv_C12_Commutative Inv_C12_Associative
-           Inv_C12_Idempotent Inv_C12_Compatible Inv_C13_Serialization Inv_C13_Any
+           Inv_C12_Idempotent Inv_C12_Compatible Inv_C12_MultiKey Inv_C13_Serialization Inv_C13_Any
